@@ -236,7 +236,7 @@ def run(ctx: Ctx) -> int:
                 if (fq, fn) not in consumers:
                     discarders.add(fn.name)
         dcalls = [c for c in calls_in(err) if call_leaf(c) in discarders]
-        leaving = [r for r in walk_local(err) if isinstance(r, ast.Raise)] + [c for c in calls_in(err) if call_leaf(c) == "exit"]
+        leaving = [r for r in walk_local(err) if isinstance(r, ast.Raise)] + [c for c in calls_in(err) if call_leaf(c) in ("exit", "_error_handler")]  # a user error handler may raise or exit itself
         ok = bool(dcalls) and ge.dominates(ge.cn(dcalls), ge.cn(leaving)) and all(c.args and root_name(c.args[0]) == "self" for c in dcalls)
         ctx.oblige("C09.b", ok, dcalls[0] if dcalls else err, f"every reported parse error first discards a pending `{a}` request (walking up to the root parser)" if ok else f"a parse error leaves a pending `{a}` request on the parser: the next successful parse prints the configuration and exits", fn=err, construct=f"discard {a} on error")
 
@@ -429,6 +429,46 @@ def run(ctx: Ctx) -> int:
     ctx.oblige("C09.e", ok, adds[0] if adds else hc, "the lazily added --print_shtab action is added at most once" if ok else "--print_shtab can be added on every parse", fn=hc)
 
     ctx.trusted_base += ["argparse dispatches to Action.__call__ and to the _parse_optional hook only from inside _parse_known_args"]
+    # process-wide tables (builtins, a module's globals) are copied before anything is added to them
+    n_pw = 0
+    for fq, fn in repo.all_funcs():
+        for s in walk_local(fn):
+            if not (isinstance(s, ast.Assign) and len(s.targets) == 1 and isinstance(s.targets[0], ast.Name)):
+                continue
+            v_ = s.value
+            wide = (isinstance(v_, ast.Name) and v_.id == "__builtins__") or (isinstance(v_, ast.Call) and isinstance(v_.func, ast.Name) and v_.func.id in ("vars", "globals") and not (v_.func.id == "vars" and v_.args and isinstance(v_.args[0], ast.Name) and v_.args[0].id in ("self", "cfg", "namespace", "value", "val")))
+            if not wide:
+                continue
+            x = s.targets[0].id
+            muts_ = [c for c in calls_in(fn) if call_leaf(c) in MUTATORS and isinstance(c.func, ast.Attribute) and isinstance(c.func.value, ast.Name) and c.func.value.id == x] + [a_ for a_ in walk_local(fn) if isinstance(a_, (ast.Assign, ast.Delete)) and any(isinstance(t, ast.Subscript) and isinstance(t.value, ast.Name) and t.value.id == x for t in a_.targets)]
+            if not muts_:
+                continue
+            n_pw += 1
+            ctx.oblige("C09.c", False, muts_[0], f"`{x}` is `{src(v_, 30)}` itself (no copy) and is written in place: names resolved for one module stay in the process-wide table - an annotation name that another module never defines becomes resolvable there, and what a parser accepts depends on which classes were parsed before", fn=fn, construct="process-wide table written")
+    # (the clean tree has none; the positive example that keeps the pattern alive is the copy form below)
+    copies_pw = [s for fq, fn in repo.all_funcs() for s in walk_local(fn) if isinstance(s, ast.Assign) and isinstance(s.value, ast.Call) and call_leaf(s.value) == "copy" and isinstance(s.value.func, ast.Attribute) and isinstance(s.value.func.value, ast.Name) and s.value.func.value.id == "__builtins__"]
+    ctx.floor("C09.c-builtins-copied", len(copies_pw), 1, defer=True)
+    # class-level mutable attributes are shared by all instances: a method that writes one through `self` without
+    # having rebound it on the instance first leaks one call's findings into every later call
+    n_cls = 0
+    for m in repo.modules.values():
+        for cd in [c for c in ast.walk(m.tree) if isinstance(c, ast.ClassDef)]:
+            shared_attrs = {}
+            for s in cd.body:
+                tgt, val = (s.target, s.value) if isinstance(s, ast.AnnAssign) else (s.targets[0], s.value) if isinstance(s, ast.Assign) and len(s.targets) == 1 else (None, None)
+                if isinstance(tgt, ast.Name) and isinstance(val, (ast.Dict, ast.List, ast.Set)) or (isinstance(tgt, ast.Name) and isinstance(val, ast.Call) and isinstance(val.func, ast.Name) and val.func.id in ("dict", "list", "set") and not val.args):
+                    shared_attrs[tgt.id] = s
+            for a_, decl in shared_attrs.items():
+                methods_ = [f for f in cd.body if isinstance(f, FuncNode)]
+                rebinds = [s for f in methods_ for s in walk_local(f) if isinstance(s, (ast.Assign, ast.AnnAssign)) and any(isinstance(t, ast.Attribute) and t.attr == a_ and isinstance(t.value, ast.Name) and t.value.id == "self" for t in (s.targets if isinstance(s, ast.Assign) else [s.target]))]
+                writes_ = [c for f in methods_ for c in calls_in(f) if call_leaf(c) in MUTATORS and isinstance(c.func, ast.Attribute) and isinstance(c.func.value, ast.Attribute) and c.func.value.attr == a_ and isinstance(c.func.value.value, ast.Name) and c.func.value.value.id in ("self", "cls")] + [s for f in methods_ for s in walk_local(f) if isinstance(s, (ast.Assign, ast.Delete)) and any(isinstance(t, ast.Subscript) and isinstance(t.value, ast.Attribute) and t.value.attr == a_ and isinstance(t.value.value, ast.Name) and t.value.value.id in ("self", "cls") for t in s.targets)]
+                if not writes_:
+                    continue
+                n_cls += 1
+                ok = bool(rebinds)
+                ctx.oblige("C09.c", ok, writes_[0], f"{cd.name}.{a_} is rebound on the instance before it is written" if ok else f"{cd.name}.{a_} is a class-level {type(decl.value).__name__.lower() if hasattr(decl, 'value') else 'container'} written through self and never rebound on the instance: what one call collects is seen by every later call in the process - the answer of a parser depends on which modules were resolved before", fn=cd, site=f"{m.name}:{cd.name}.{a_}", construct=f"{cd.name}.{a_} class-level mutable", function=f"{m.name}:{cd.name}")
+    ctx.extra["class_level_mutables_written"] = n_cls
+
     # a signature default that is an INSTANCE (engine: Engine = Turbo(power=3)) is replaced by a class spec, so that every
     # instantiate_classes call builds a new object; the test that recognises such defaults covers subclasses
     ipd = ctx.func("_parameter_resolvers:is_param_subclass_instance_default")
